@@ -4,6 +4,8 @@ pub mod out;
 pub mod run;
 pub mod gen;
 pub mod flt;
+pub mod fmt_table;
+pub mod fmtspec;
 
 pub use big::Big;
 pub use layout::{IntK, INTS, L, NLAY};
@@ -12,5 +14,5 @@ pub use run::{Budget, Engine, Kf, Tier};
 
 /// Oracle self-tests, run at the start of every check.
 pub fn selftest() -> Result<u64, String> {
-    Ok(big::selftest()? + layout::selftest()? + flt::selftest()?)
+    Ok(big::selftest()? + layout::selftest()? + flt::selftest()? + fmtspec::selftest()?)
 }
